@@ -33,7 +33,7 @@ use chk_sql::sqlmc::{ContextOptions, OrderSpec, compare_engine_results, same_mul
 use datafusion::common::{Column, JoinType, ScalarValue};
 use datafusion::functions_aggregate as fa;
 use datafusion::functions_window as fw;
-use datafusion::logical_expr::expr::{Between, Case, InList, Like, WindowFunction};
+use datafusion::logical_expr::expr::{Between, Case as CaseExpr, InList, Like, WindowFunction};
 use datafusion::logical_expr::{
     Expr as DExpr, ExprFunctionExt, GroupingSet, Operator, SortExpr, WindowFrame, WindowFrameBound, WindowFrameUnits, WindowFunctionDefinition, binary_expr, cast, lit,
 };
@@ -224,7 +224,7 @@ impl Rend<'_> {
                     Some(x) => Some(Box::new(self.ex(x, map)?)),
                     None => None,
                 };
-                DExpr::Case(Case::new(operand, wt, else_))
+                DExpr::Case(CaseExpr::new(operand, wt, else_))
             }
             A::Expr::Func(f, args) => {
                 let args = self.exprs(args, map)?;
